@@ -293,6 +293,7 @@ SolverCallClauses(T, prev, ev, post) ==
     ELSE   If(~Feasible(I, ev.sched), {C("C04:solver-infeasible")})
       \cup If(~Complete(I, ev.sched), {C("C04:solver-incomplete")})
       \cup If(ev.elapsed_sign < 0, {C("C04:negative-elapsed-time")})
+      \cup If("elapsed_le_wall" \in DOMAIN ev /\ ~ev.elapsed_le_wall /\ ev.elapsed_sign >= 0, {C("C04:elapsed-time-exceeds-wall-clock")})
       \cup If(ev.solved_by # "DispatchingRuleSolver", {C("C04:solved-by")})
       \cup If(post.core # prev.core, {C("C04:solver-changed-caller-state")})
 
@@ -326,6 +327,7 @@ CpSatClauses(T, prev, ev, post) ==
       \cup If(ev.status \notin {"optimal", "feasible"}, {C("C03:status")})
       \cup If(ev.solved_by # "ORToolsSolver", {C("C03:solved-by")})
       \cup If(ev.elapsed_sign < 0, {C("C03:negative-elapsed-time")})
+      \cup If("elapsed_le_wall" \in DOMAIN ev /\ ~ev.elapsed_le_wall /\ ev.elapsed_sign >= 0, {C("C03:elapsed-time-exceeds-wall-clock")})
       \cup If(Feasible(I, ev.sched) /\ Complete(I, ev.sched) /\ MakespanDef(I, ev.sched) < LowerBound(I), {C("C03:below-lower-bound")})
       \cup If(ev.lb > 0 /\ ev.makespan < ev.lb, {C("C03:below-benchmark-bound")})
       \cup If(ev.status = "optimal" /\ ev.ub > 0 /\ ev.makespan > ev.ub, {C("C03:above-benchmark-optimum")})
